@@ -339,6 +339,56 @@ def _scenario_reuse_dict_new_mesh():
     return info
 
 
+def _scenario_zero_lift_then_ordinary():
+    """A zero-lift evaluation (untwisted flat wing at alpha = 0: CL = 0, range-type functionals divide by it) is not
+    judged itself - it may give inf/nan or raise. What is judged: it must leave the process as it found it, i.e. an
+    ordinary evaluation afterwards (including a fully turbulent surface, whose viscous drag does a discarded 0-division)
+    works and equals what a pristine process gives, and numpy's error state / print options are untouched."""
+    info = {"stage": "build", "exc": None, "msg": None, "warnings": [], "produced_numbers": False, "mismatch": None}
+    try:
+        g0 = _global_state()
+        try:
+            m = zoo.build({"zoo": "Z9", "ny": 3, "nx": 2})
+            m.set_point({"alpha": np.array([0.0]), "wing.twist_cp": np.zeros(3), "tail.twist_cp": np.zeros(1), "beta": np.array([0.0])})
+            with _quiet():
+                m.prob.run_model()
+        except Exception:  # noqa - any loud failure of the degenerate evaluation is acceptable
+            pass
+        spec = {"zoo": "Z1", "ny": 5, "nx": 2, "surf_opts": {"k_lam": 0.0}}
+        try:
+            m2 = zoo.build(spec)
+            with _quiet():
+                m2.prob.run_model()
+            after = obs.read_outputs(m2.prob)
+        except Exception as e:  # noqa
+            info["exc"] = type(e).__name__
+            info["msg"] = "ordinary evaluation after a zero-lift one raised: %s" % (str(e)[:150],)
+            return info
+        g1 = _global_state()
+        changed = [k for k in g0 if g0[k] != g1[k]]
+        if changed:
+            info["mismatch"] = ("process-wide state changed: %s" % ", ".join(changed), float("inf"), 0.0)
+        else:
+            fresh = core.in_child(_plain_outputs, spec)
+            for k, v in fresh.items():
+                ok, err, scale = obs.cmp_arrays(after.get(k, np.array([np.nan])), v, RT_ISOLATED, 0.0)
+                if not ok:
+                    info["mismatch"] = (k, err, scale)
+                    break
+        info["stage"] = "completed"
+    except Exception as e:  # noqa
+        info["exc"] = type(e).__name__
+        info["msg"] = str(e)[:200]
+    return info
+
+
+def _plain_outputs(spec):
+    m = zoo.build(spec)
+    with _quiet():
+        m.prob.run_model()
+    return obs.read_outputs(m.prob)
+
+
 def _bad_even_num_y_crm():
     from openaerostruct.geometry.utils import generate_mesh
 
@@ -581,6 +631,7 @@ ERROR_TABLE = {
     "multisection_span_too_long_with_bpanels": (lambda: _bad_multisection("span", True, True), "ValueError", None),
     "multisection_sweep_length_with_bpanels": (lambda: _bad_multisection("sweep", False, True), "ValueError", None),
     "reused_surface_dict_with_new_mesh": (_scenario_reuse_dict_new_mesh, "SCENARIO", None),
+    "zero_lift_evaluation_leaves_process_clean": (_scenario_zero_lift_then_ordinary, "SCENARIO", None),
 }
 
 
@@ -592,7 +643,7 @@ def judge_bad_setup(name, info):
             return "scenario raised %s: %s" % (info["exc"], info["msg"])
         if info.get("mismatch"):
             k_, e_, s_ = info["mismatch"]
-            return "a Problem built from the re-used dict differs from one built from a new dict: %s by %.3g (scale %.3g)" % (k_, e_, s_)
+            return "scenario outcome differs from the pristine one: %s by %.3g (scale %.3g)" % (k_, e_, s_)
         return None
     if exc == "ALIAS":
         if info["exc"]:
